@@ -123,11 +123,14 @@ func c04Run(c *Ctx) {
 				c.Do("pair", c04Pair{A: x, B: y, Opt: "append"})
 			}
 		}
-		// every ordered pair at pointer level, the build mode rotating over the pairs
+		// every ordered pair at pointer level; strategy and build modes rotate over the pairs
 		for i, x := range all {
 			for j, y := range all {
-				c.Do("heap-merge", heapMergeCase{A: x, B: y, Opt: "meld", Build: (i + j) % heapBuildModes, BuildB: (i + 2*j) % heapBuildModes, Salt: i + j})
-				c.Do("heap-merge", heapMergeCase{A: x, B: y, Opt: "append", Build: (i + 2*j + 1) % heapBuildModes, BuildB: (i + j + 1) % heapBuildModes, Salt: i + j})
+				o := "meld"
+				if (i+j)%2 == 1 {
+					o = "append"
+				}
+				c.Do("heap-merge", heapMergeCase{A: x, B: y, Opt: o, Build: (i + j) % heapBuildModes, BuildB: (i + 2*j) % heapBuildModes, Salt: i + j})
 			}
 		}
 	}
